@@ -79,6 +79,31 @@ def check_repeat(case):
         if a["domain"]:
             return Outcome(violation={"clause": "domain-mutated", "msg": "the user's domain object was modified: %s" % a["domain"], "round": None}, classes=classes)
         return Outcome(nontrivial=False, classes=classes, rounds=len(a["points"]))
+    if case.get("ndarray_domain"):
+        # the box handed over as a 2-D float NumPy array (not the documented container, but accepted by the
+        # unchanged library and treated like the list of lists): whatever the code makes of it, the user's array
+        # must not be written to.  Only the domain clause is judged; an exception is inconclusive.
+        import numpy as np
+
+        classes.append("ndarray-domain")
+        if any(float(b) != b for ax in case["domain"] for b in ax):
+            return Outcome(classes=classes)
+        arr = np.array(case["domain"], dtype=float)
+        snap = arr.copy()
+        n = 0
+        with Session(case, record_partitions=False, domain_obj=arr) as s:
+            try:
+                s.construct()
+                for _ in range(min(case["T"], 30)):
+                    s.step()
+                    n += 1
+            except Exception as e:  # noqa: BLE001
+                if np.array_equal(arr, snap):
+                    return Outcome(aborted="ndarray-rejected:" + type(e).__name__, classes=classes)
+        if not np.array_equal(arr, snap):
+            return Outcome(violation={"clause": "domain-mutated", "round": None,
+                                      "msg": "the user's domain array was modified: %r -> %r" % (snap.tolist(), arr.tolist())}, classes=classes)
+        return Outcome(nontrivial=False, classes=classes, rounds=n)
     a = trace(case)
     b = trace(case)
     if a["domain"] or b["domain"]:
@@ -101,6 +126,32 @@ def check_repeat(case):
 # ------------------------------------------------------------------ interleaving
 
 
+class RngSlots:
+    """One NumPy global-generator state per instance, swapped in around every call on that instance, so that an
+    instance which draws from ``np.random`` (VROOM; a partition's split axis) sees under any interleaving exactly
+    the stream it sees alone. With it the interleaving clause is sound for algorithms that use the generator:
+    whatever then differs from the solo run is state shared between the two objects, not the shared stream."""
+
+    def __init__(self):
+        self.state = {}
+
+    def init(self, who, case):
+        import numpy as np
+
+        np.random.seed((case.get("rng") or {}).get("seed", 0) % (2 ** 32))
+        self.state[who] = np.random.get_state()
+
+    @contextlib.contextmanager
+    def use(self, who):
+        import numpy as np
+
+        np.random.set_state(self.state[who])
+        try:
+            yield
+        finally:
+            self.state[who] = np.random.get_state()
+
+
 def run_interleaved(caseA, caseB, schedule, share_domain=False):
     """Returns (pointsA, pointsB, error) for the interleaved execution."""
     pts = {"A": [], "B": []}
@@ -108,22 +159,28 @@ def run_interleaved(caseA, caseB, schedule, share_domain=False):
     with contextlib.ExitStack() as st_:
         sess = {"A": st_.enter_context(Session(caseA, record_partitions=False, domain_obj=shared)),
                 "B": st_.enter_context(Session(caseB, record_partitions=False, domain_obj=shared))}
+        slots = RngSlots()
+        slots.init("A", caseA)
+        slots.init("B", caseB)
         try:
-            sess["A"].construct()
-            sess["B"].construct()
+            with slots.use("A"):
+                sess["A"].construct()
+            with slots.use("B"):
+                sess["B"].construct()
             pending = {}
             for tok in schedule:
                 who = {"A": "A", "a": "A", "x": "A", "B": "B", "b": "B", "y": "B"}[tok]
                 s = sess[who]
-                if tok in "AB":
-                    pt, r = s.step()
-                elif tok in "ab":  # pull only; the reward arrives later, after calls on the other instance
-                    pt = s.pull()
-                    pending[who] = (pt, s.reward_for(pt))
-                    continue
-                else:
-                    pt, r = pending.pop(who)
-                    s.receive(r)
+                with slots.use(who):
+                    if tok in "AB":
+                        pt, r = s.step()
+                    elif tok in "ab":  # pull only; the reward arrives later, after calls on the other instance
+                        pt = s.pull()
+                        pending[who] = (pt, s.reward_for(pt))
+                        continue
+                    else:
+                        pt, r = pending.pop(who)
+                        s.receive(r)
                 pts[who].append([repr(x) for x in pt] if isinstance(pt, list) else repr(pt))
         except Exception as e:  # noqa: BLE001
             return pts["A"], pts["B"], type(e).__name__
@@ -160,10 +217,14 @@ def check_interleave(case):
 
 @st.composite
 def rngfree_case(draw, name=None):
-    name = name or draw(st.sampled_from(RNG_FREE_ALGOS))
-    d = draw(st.integers(1, 2))
+    # VROOM draws from NumPy's global generator; RngSlots gives every instance its own stream (see there)
+    name = name or draw(st.sampled_from(RNG_FREE_ALGOS + ["VROOM"]))
+    d = 1 if name == "VROOM" else draw(st.integers(1, 2))
     dom = draw(gen.domains(max_d=d, min_d=d))
-    if d == 1:
+    if name == "VROOM":  # binary children only (open finding D10)
+        pspec = draw(st.sampled_from([{"cls": "BinaryPartition"}, {"cls": "DimensionBinaryPartition"},
+                                      {"cls": "KaryPartition", "K": 2}]))
+    elif d == 1:
         pspec = draw(st.sampled_from([{"cls": "BinaryPartition"}, {"cls": "DimensionBinaryPartition"},
                                       {"cls": "KaryPartition", "K": 2}, {"cls": "KaryPartition", "K": 3}]))
     else:
@@ -184,6 +245,7 @@ def make_machine(col, sub):
             self.pts = {"A": [], "B": []}
             self.pending = {}
             self.dead = None
+            self.slots = RngSlots()
 
         @initialize(data=st.data())
         def init(self, data):
@@ -197,7 +259,8 @@ def make_machine(col, sub):
                 # users routinely hand the same domain list to several instances
                 B = dict(B)
                 B["domain"] = copy.deepcopy(A["domain"])
-                if B["partition"]["cls"] != A["partition"]["cls"] and data.draw(st.booleans()):
+                if B["partition"]["cls"] != A["partition"]["cls"] and data.draw(st.booleans()) and (
+                        B["algo"]["name"] != "VROOM" or A["partition"].get("K", 2) == 2):  # VROOM: binary children only
                     B["partition"] = copy.deepcopy(A["partition"])
             self.case = {"A": A, "B": B, "schedule": ""}
             shared = None
@@ -207,8 +270,12 @@ def make_machine(col, sub):
             try:
                 self.sess["A"] = self.stack.enter_context(Session(A, record_partitions=False, domain_obj=shared))
                 self.sess["B"] = self.stack.enter_context(Session(B, record_partitions=False, domain_obj=shared))
-                self.sess["A"].construct()
-                self.sess["B"].construct()
+                self.slots.init("A", A)
+                self.slots.init("B", B)
+                with self.slots.use("A"):
+                    self.sess["A"].construct()
+                with self.slots.use("B"):
+                    self.sess["B"].construct()
             except Exception as e:  # noqa: BLE001
                 self.dead = "exception:" + type(e).__name__
 
@@ -220,7 +287,8 @@ def make_machine(col, sub):
                 return
             self.case["schedule"] += who
             try:
-                pt, r = self.sess[who].step()
+                with self.slots.use(who):
+                    pt, r = self.sess[who].step()
                 self.pts[who].append([repr(x) for x in pt] if isinstance(pt, list) else repr(pt))
             except Exception as e:  # noqa: BLE001
                 self.dead = "exception:" + type(e).__name__
@@ -246,7 +314,8 @@ def make_machine(col, sub):
                 return
             self.case["schedule"] += who.lower()
             try:
-                pt = self.sess[who].pull()
+                with self.slots.use(who):
+                    pt = self.sess[who].pull()
                 self.pending[who] = (pt, self.sess[who].reward_for(pt))
             except Exception as e:  # noqa: BLE001
                 self.dead = "exception:" + type(e).__name__
@@ -257,7 +326,8 @@ def make_machine(col, sub):
             self.case["schedule"] += {"A": "x", "B": "y"}[who]
             pt, r = self.pending.pop(who)
             try:
-                self.sess[who].receive(r)
+                with self.slots.use(who):
+                    self.sess[who].receive(r)
                 self.pts[who].append([repr(x) for x in pt] if isinstance(pt, list) else repr(pt))
             except Exception as e:  # noqa: BLE001
                 self.dead = "exception:" + type(e).__name__
@@ -377,8 +447,12 @@ def repeat_cases(draw, tier):
     quick = tier == "quick"
     c = draw(gen.run_case(T_max=150 if quick else 600, laws=LAWS, poo_ok_only=True, gpo_ok_only=True, script_prob=0.0,
                           T_min=5, n_range=(100, 300) if quick else (100, 1000)))
-    if draw(st.integers(0, 11)) == 0:
+    k = draw(st.integers(0, 11))
+    if k == 0:
         c["descending"] = draw(st.integers(1, 3))
+    elif k == 1:
+        c["ndarray_domain"] = True
+        c.pop("alias_axes", None)
     return c
 
 
@@ -387,8 +461,8 @@ def twin_cases(draw, tier):
     """Two instances of the SAME class on the SAME partition class and the SAME domain list object, with
     independently drawn parameters and rewards, alternating for up to 150 rounds each: where state shared
     through a class attribute, a module global or a cache keyed by the arguments' identity shows."""
-    name = draw(st.sampled_from(RNG_FREE_ALGOS + ["POO", "POO", "GPO", "PCT", "VPCT"]))
-    d = draw(st.integers(1, 2))
+    name = draw(st.sampled_from(RNG_FREE_ALGOS + ["POO", "POO", "GPO", "PCT", "VPCT", "VROOM", "VROOM"]))
+    d = 1 if name == "VROOM" else draw(st.integers(1, 2))  # VROOM: binary children only; its draws go through RngSlots
     dom = draw(gen.domains(max_d=d, min_d=d))
     pspec = draw(st.sampled_from([{"cls": "BinaryPartition"}, {"cls": "DimensionBinaryPartition"}])) if d == 1 else {"cls": "DimensionBinaryPartition"}
     out = {}
